@@ -102,9 +102,17 @@ impl UpdaterState {
         // Ensure we clear any patch data if we're creating a new state. This must happen before
         // the new release version is recorded: if we are interrupted in between, the version
         // mismatch is detected again on the next load and the reset is retried.
-        let _ = state.patch_manager.reset();
-        if let Err(e) = state.save() {
-            shorebird_warn!("Error saving state {:?}, ignoring.", e);
+        // Only record the new release version once the old patch data is known to be gone: if the
+        // reset failed, the version mismatch is detected again on the next load and it is retried.
+        match state.patch_manager.reset() {
+            Ok(()) => {
+                if let Err(e) = state.save() {
+                    shorebird_warn!("Error saving state {:?}, ignoring.", e);
+                }
+            }
+            Err(e) => {
+                shorebird_warn!("Error clearing patch data {:?}, not recording new state.", e);
+            }
         }
         state
     }
